@@ -135,6 +135,8 @@ type c13op struct {
 	panicked string
 	obsModel string // same format as the Lean model answer
 	obsSpec  string // same format as the Lean spec answer
+	straddle bool   // a failure string with LF was laid across two consecutive outputs
+	twinDiff string // n.cfg: SendConfig vs SendConfigs on an identical device
 	native   []string
 	user     []string
 	userMode []string
@@ -252,7 +254,43 @@ func c13ParseLine(line string) (*c13sess, error) {
 // generator
 
 var c13Pool = []string{"% Invalid input", "% Invalid", "% Ambiguous command", "Error:", "^", "é✗ failed",
-	"aab", "bad\ncmd", "syntax error", "E", "rror", "Error: bad", "% ", "not found", "aaab", " "}
+	"aab", "bad\ncmd", "syntax error", "E", "rror", "Error: bad", "% ", "not found", "aaab", " ",
+	// anchored to a line start / end, or spanning lines
+	"\n% Invalid input", "\n% ", "rror\n", "a\nb", "marker.\n^"}
+
+// c13Straddle rewrites outs[i], outs[i+1] so that s (which contains LF) does not have to occur in
+// either but occurs in outs[i] + "\n" + outs[i+1]: suffix of the first, line break, prefix of the second.
+func c13Straddle(r *vlib.Rng, s string, x, y *string) {
+	var cuts []int
+	for k := 0; k < len(s); k++ {
+		if s[k] == '\n' {
+			cuts = append(cuts, k)
+		}
+	}
+	if len(cuts) == 0 {
+		return
+	}
+	k := cuts[r.Intn(len(cuts))]
+	p, q := s[:k], s[k+1:]
+	head, tail := c13Clean(r), c13Clean(r)
+	switch r.Intn(3) {
+	case 0:
+		*x = p
+	case 1:
+		*x = head + "\n" + p
+	default:
+		*x = head + "\nxx " + p
+	}
+	switch r.Intn(3) {
+	case 0:
+		*y = q
+	case 1:
+		*y = q + "\n" + tail
+	default:
+		*y = q + " yy\n" + tail
+	}
+	*x, *y = c13Canon(*x), c13Canon(*y)
+}
 
 var c13Filler = []string{"Building configuration...", "interface Loopback0", " description uplink", "ok", "done",
 	"aa b aaa", "value 42", "État: prêt ✓", "  indented line", "Current configuration : 1024 bytes", "e r r o r",
@@ -445,6 +483,18 @@ func c13GenOp(r *vlib.Rng, s *c13sess, thorough bool) *c13op {
 			out = c13Clean(r)
 		}
 		o.outs = append(o.outs, c13Canon(out))
+	}
+	// a failure string with a line break straddling the joint of two consecutive outputs
+	var lfStrs []string
+	for _, s := range eff {
+		if strings.Contains(s, "\n") {
+			lfStrs = append(lfStrs, s)
+		}
+	}
+	if n >= 2 && len(lfStrs) > 0 && (r.Chance(1, 2) || o.isCfg()) {
+		i := r.Intn(n - 1)
+		c13Straddle(r, lfStrs[r.Intn(len(lfStrs))], &o.outs[i], &o.outs[i+1])
+		o.straddle = true
 	}
 	if o.isFile() {
 		o.crlf = r.Chance(1, 4)
@@ -935,6 +985,38 @@ func c13RunSession(s *c13sess) {
 					o.native = append(o.native, fmt.Sprintf("collapsed response: Failed=%v but its output %q contains-one-of %q = %v",
 						one.Failed != nil, one.Result, eff, c13ContainsAny(one.Result, eff)))
 				}
+				// "a collapsed config response reports the same": run SendConfigs with the same lines and
+				// options against an identical device and compare the verdicts (every failure list)
+				dev.Snapshot(func() {
+					dev.outs, dev.first, dev.target = o.outs, first, o.target()
+					dev.started = false
+					dev.user, dev.userMode, dev.stray = nil, nil, nil
+				})
+				var oo2 []util.Option
+				if o.opF != nil {
+					oo2 = append(oo2, opoptions.WithFailedWhenContains(append([]string{}, *o.opF...)))
+				}
+				if o.stop {
+					oo2 = append(oo2, opoptions.WithStopOnFailed())
+				}
+				twin, terr := nd.SendConfigs(o.cmds, oo2...)
+				var twinUser []string
+				dev.Snapshot(func() { twinUser = append([]string{}, dev.user...) })
+				switch {
+				case terr != nil || twin == nil:
+					o.twinDiff = fmt.Sprintf("SendConfigs on the same lines failed: %v", terr)
+				default:
+					a := sent + "|M" + c13Bit(one.Failed != nil) + "|I" + c13Members(one.Failed)
+					b := c13ShowSent(twinUser) + "|M" + c13Bit(twin.Failed != nil) + "|I" + c13Members(twin.Failed)
+					if a != b {
+						var rs []string
+						for _, x := range twin.Responses {
+							rs = append(rs, fmt.Sprintf("%q->%q failed=%v", x.Input, x.Result, x.Failed != nil))
+						}
+						o.twinDiff = fmt.Sprintf("failure strings in force %q\n SendConfig : Failed=%v (%v) result %q\n SendConfigs: Failed=%v members %s\n collapsed %s\n multi     %s",
+							eff, one.Failed != nil, one.Failed, one.Result, twin.Failed != nil, strings.Join(rs, " ; "), a, b)
+					}
+				}
 			}
 		default:
 			if multi == nil {
@@ -968,7 +1050,7 @@ func c13DropBits(spec string) string {
 
 func runC13(c *ctx) {
 	res := c.res
-	res.Rule = "sessions of 1-4 operations on real generic/network drivers over the CLI simulator: SendCommand(s)/FromFile, SendConfigs/FromFile, SendConfig x driver-level list (absent/empty/1-3 strings) x operation-level list (absent/empty/1-3 strings) x stop-on-failed x 1-7 (thorough -14) commands (some empty) x failure placement none/first/middle/last/several/all/random x outputs embedding in-force strings, not-in-force strings, near misses (prefix, case, split over lines) x read segmentation; malformed stream: empty lists/files, missing files, empty failure strings; direct tie of response.NewResponse/Record/AppendResponse on arbitrary byte outputs over {a,b,LF,space} (random) and every needle of 1-3 bytes x every output of 0-5 bytes over {a,b} (exhaustive). non-trivial = in-domain operation with >= 2 commands or any failed response; distinct by case line"
+	res.Rule = "sessions of 1-4 operations on real generic/network drivers over the CLI simulator: SendCommand(s)/FromFile, SendConfigs/FromFile, SendConfig x driver-level list (absent/empty/1-3 strings) x operation-level list (absent/empty/1-3 strings) x stop-on-failed x 1-7 (thorough -14) commands (some empty) x failure placement none/first/middle/last/several/all/random x outputs embedding in-force strings, not-in-force strings, near misses (prefix, case, split over lines), failure strings containing LF laid across the joint of two consecutive outputs x read segmentation; every SendConfig is re-run as SendConfigs on an identical device and the verdicts compared; malformed stream: empty lists/files, missing files, empty failure strings; direct tie of response.NewResponse/Record/AppendResponse on arbitrary byte outputs over {a,b,LF,space} (random) and every needle of 1-3 bytes x every output of 0-5 bytes over {a,b} (exhaustive). non-trivial = in-domain operation with >= 2 commands or any failed response; distinct by case line"
 	var sessions []*c13sess
 	if c.replay != "" {
 		s, err := c13ParseLine(c.replay)
@@ -1095,6 +1177,14 @@ func runC13(c *ctx) {
 					res.Fail("machinery", line, fmt.Sprintf("line %d %q arrived in mode %s, expected %s", i, o.user[i], m, o.target()), "wrong-mode")
 					break
 				}
+			}
+			if o.straddle {
+				res.Count("outputs:failure-string-straddles-two-outputs")
+			}
+			// the collapsed response must report what the multi-response reports, for every failure list
+			if o.twinDiff != "" {
+				res.Fail("oracle", line, "SendConfig disagrees with SendConfigs on an identical device: "+o.twinDiff, "collapsed-differs-from-multi")
+				continue
 			}
 			specCmp := spec
 			if o.isCfg() {
